@@ -488,15 +488,24 @@ def templatePayload : Kind → Str → J
 
 /-! ### `gen_routes` -/
 
-/-- `next(map(itemgetter(0), filter(lambda p: p[1]["doc"].startswith("[PK]"), params.items())), next(iter(params.keys())))`;
-    a parameter is (name, its `doc` if the key is present) -/
+/-- `next(map(itemgetter(0), filter(lambda p: p[1].get("doc", "").startswith("[PK]"), params.items())), next(iter(params.keys())))`;
+    a parameter is (name, its `doc` if the key is present); a parameter without `doc` is simply not the `[PK]` one -/
 def pickPkGo : List (Str × Option Str) → Str → Except PyErr Str
   | [], dflt => .ok dflt
-  | (_, none) :: _, _ => .error .keyError
+  | (_, none) :: rest, dflt => pickPkGo rest dflt
   | (k, some doc) :: rest, dflt => if startsWith doc c!"[PK]" then .ok k else pickPkGo rest dflt
 def pickPk : List (Str × Option Str) → Except PyErr Str
   | [] => .error .stopIteration
   | (k, d) :: rest => pickPkGo ((k, d) :: rest) k
+
+/-- the search before the fix (`p[1]["doc"]`): `KeyError` on the first parameter without `doc` that is examined -/
+def pickPkGoPinned : List (Str × Option Str) → Str → Except PyErr Str
+  | [], dflt => .ok dflt
+  | (_, none) :: _, _ => .error .keyError
+  | (k, some doc) :: rest, dflt => if startsWith doc c!"[PK]" then .ok k else pickPkGoPinned rest dflt
+def pickPkPinned : List (Str × Option Str) → Except PyErr Str
+  | [] => .error .stopIteration
+  | (k, d) :: rest => pickPkGoPinned ((k, d) :: rest) k
 
 /-- one decorated function of a routes file: decorator path, decorator method, `bottle(function)` -/
 structure RouteFn where
@@ -519,11 +528,15 @@ def genRoutes (app : Str) (e : Entry) : List RouteFn :=
   (if e.crud.contains 'D' then
     [{ app := app, path := bottleItem e.route e.id, method := c!"delete", payload := templatePayload .destroy e.name }] else [])
 
-/-- `upsert_routes` on one routes file: the first batch creates the file; every later non-empty batch is appended with no
-    separating newline, so its first function loses its decorator (`… = 204@app.post('/x')`), `get_route_meta` raises
-    `StopIteration` inside `filter`, and `openapi_bulk` silently stops reading that file there.
-    Result: the route functions `openapi_bulk` sees in the file. -/
-def visibleRoutes : List (List RouteFn) → List RouteFn
+/-- `upsert_routes` on one routes file: the first batch creates the file (prelude + routes), every later batch is
+    appended after a blank line, in the order post, get, delete — the order `gen_routes` emits.
+    Result: the route functions `openapi_bulk` sees in the file = all batches, in order. -/
+def visibleRoutes (batches : List (List RouteFn)) : List RouteFn := batches.flatten
+
+/-- the file as it was read before the fix: later batches were appended with no separating newline, so the first
+    appended function lost its decorator (`… = 204@app.post('/x')`), `get_route_meta` raised `StopIteration` inside
+    `filter`, and `openapi_bulk` silently stopped reading the file there — only the creating batch was visible -/
+def visibleRoutesPinned : List (List RouteFn) → List RouteFn
   | [] => []
   | first :: _ => first
 
